@@ -70,6 +70,12 @@ def run_shape(tdir, work, inv, k, rep=0):
             open(os.path.join(d, srcname), "w").write(ASM_SRC[inv["src"]][rep])
         elif tool in ("xcmp", "xrun"):
             open(os.path.join(d, srcname), "w").write(x_src(inv["xv"], inv.get("via", "const")) if inv["src"] == "accepted" else X_ERR[inv["src"]][rep])
+        elif inv.get("via") == "big":
+            # a table of 52000 words behind the code: the image is larger than 200000 bytes; the program exits with xv
+            asm = "BR go\nsp\nDATA 190000\ngo\nLDAC %d\nLDBM sp\nSTAI 2\nLDAC 0\nOPR SVC\n" % inv["xv"] + "DATA 7\n" * 52000
+            ss = os.path.join(d, "tmp.S"); open(ss, "w").write(asm)
+            vlib.sh([os.path.join(tdir, "hexasm"), ss, "-o", os.path.join(d, srcname)], cwd=d, check=True, timeout=120)
+            os.remove(ss)
         else:
             xs = os.path.join(d, "tmp.x"); open(xs, "w").write(x_src(inv["xv"], inv.get("via", "const")))
             vlib.sh([os.path.join(tdir, "xcmp"), xs, "-o", os.path.join(d, srcname)], cwd=d, check=True, timeout=60)
@@ -84,6 +90,10 @@ def run_shape(tdir, work, inv, k, rep=0):
         ref = open(rb, "rb").read() if os.path.exists(rb) else None
     if inv["pre"] == "present" and target:
         open(os.path.join(d, target), "wb").write(b"PRE-EXISTING SENTINEL\n")
+    fifo = None
+    if inv["pre"] == "fifo" and target:
+        os.mkfifo(os.path.join(d, target))
+        fifo = os.open(os.path.join(d, target), os.O_RDWR | os.O_NONBLOCK)      # keeps a reader (and a writer) on the pipe: the tool never blocks
     before = snapshot(d)
     argv = [os.path.join(tdir, tool)]
     o = [inv["opt"], target] if inv["opt"] != "none" else []
@@ -94,12 +104,28 @@ def run_shape(tdir, work, inv, k, rep=0):
         stderr = len(p.stderr) > 0
     except subprocess.TimeoutExpired:
         status, stderr = 2000, False
+    delivered = None
+    if fifo is not None:
+        delivered = b""
+        while True:
+            try:
+                chunk = os.read(fifo, 65536)
+            except BlockingIOError:
+                break
+            if not chunk:
+                break
+            delivered += chunk
+        os.close(fifo)
     after = snapshot(d)
     created = sorted(f for f in after if f not in before)
     modified = sorted(f for f in after if f in before and after[f] != before[f])
     targetok = False
     if target and target in after and ref is not None:
         targetok = open(os.path.join(d, target), "rb").read() == ref
+    if delivered is not None:
+        targetok = ref is not None and delivered == ref
+        if inv["src"] != "accepted" and delivered:
+            modified = modified + [target]              # a rejected source must deliver nothing
     return {"status": status, "stderr": stderr, "created": created, "modified": modified, "targetok": targetok, "argv": " ".join(argv[1:])}
 
 
